@@ -35,6 +35,7 @@ const (
 	// used in dedicated single-attempt histories only)
 	UAutoSplit = "autS" // one table map + two rows events of one statement without BEGIN
 	UTxFlagged = "txFl" // BEGIN / COMMIT query events with header flags set (THREAD_SPECIFIC_F, SUPPRESS_USE_F)
+	UTxSave    = "txSv" // BEGIN, rows, SAVEPOINT (a statement the library does not classify) inside the transaction, rows, XID
 )
 
 // BoundaryAlphabet is the C02 alphabet, simplest first.
@@ -104,6 +105,7 @@ type Gen struct {
 	ts       uint32
 	n        int
 	pattern  *Pattern
+	unkSQL   string // text of the next unclassified statement (UUnknownSt), "" = cycle through the built-in list
 }
 
 var sid = [16]byte{0x3e, 0x11, 0xfa, 0x47, 0x71, 0xca, 0x11, 0xe1, 0x9e, 0x33, 0xc8, 0x0a, 0xa9, 0x42, 0x95, 0x62}
@@ -142,6 +144,9 @@ func (g *Gen) Noise(u string) []*ref.AEvent {
 		return []*ref.AEvent{{Kind: ref.AUnknown, TS: ts, TypeCode: codes[g.n%len(codes)], Body: []byte{1, 2, 3, 4, 5, 6, 7, 8, 9, 10, 11, 12}}}
 	case UUnknownSt:
 		sqls := []string{"SAVEPOINT sp1", "FLUSH TABLES", "XA START 'x'", "GRANT ALL ON *.* TO u", "/* c */ select 1", "ANALYZE TABLE item", ""}
+		if g.unkSQL != "" {
+			return []*ref.AEvent{ref.Q(ts, "shop", g.unkSQL)}
+		}
 		return []*ref.AEvent{ref.Q(ts, "shop", sqls[g.n%len(sqls)])}
 	}
 	panic("unknown noise unit " + u)
@@ -226,6 +231,13 @@ func (g *Gen) Unit(u string) []*ref.AEvent {
 		r1.Rows.Flags = 0
 		r2 := ref.R(ts, ref.RowWrite, tb, ref.RowChange{After: rowB(uint64(k)<<40+1, "s2"+label)})
 		return []*ref.AEvent{ref.TM(ts, tb), r1, r2}
+	case UTxSave:
+		return []*ref.AEvent{ref.Q(ts, "shop", g.sp("BEGIN", g.Begin), cs), ref.TM(ts, ta),
+			ref.R(ts, ref.RowWrite, ta, ref.RowChange{After: rowA(k, label, 1)}),
+			ref.Q(ts, "shop", "SAVEPOINT `sp1`", cs),
+			ref.TM(ts+1, ta),
+			ref.R(ts+1, ref.RowUpdate, ta, ref.RowChange{Before: rowA(k, label, 1), After: rowA(k, label+"2", 2)}),
+			ref.X(ts+2, uint64(900+k))}
 	case UTxFlagged:
 		b := ref.Q(ts, "shop", g.sp("BEGIN", g.Begin), cs)
 		b.Flags = 0x000c // LOG_EVENT_THREAD_SPECIFIC_F | LOG_EVENT_SUPPRESS_USE_F
@@ -283,7 +295,7 @@ func (g *Gen) Build(units []string) *ref.History {
 
 func isCommitUnit(u string) bool {
 	switch u {
-	case UTxXID, UTxCommit, UTxRollback, UDDL, UAutoRows, UStmtOut, UStmtIn, UTx2, UTxDDL, USet, "pattern", UTxSplit, UTxFK, UAutoSplit, UTxFlagged:
+	case UTxXID, UTxCommit, UTxRollback, UDDL, UAutoRows, UStmtOut, UStmtIn, UTx2, UTxDDL, USet, "pattern", UTxSplit, UTxFK, UAutoSplit, UTxFlagged, UTxSave:
 		return true
 	}
 	return false
